@@ -148,6 +148,12 @@ pub fn gen(rng: &mut Rng, n: usize, out: &mut Vec<String>) {
                 }
                 continue;
             }
+            if rng.chance(1, 14) {
+                if let Some(l) = delev_case(&s, rng, stranger, risk_admin) {
+                    out.push(l);
+                }
+                continue;
+            }
             if rng.chance(1, 9) {
                 if let Some(l) = recv_case(&s, rng, stranger) {
                     out.push(l);
@@ -804,6 +810,138 @@ fn recv_case(s: &Scen, rng: &mut Rng, stranger: Pubkey) -> Option<String> {
         Ok(()) if named != receiver => Some(format!("{} => ok accepted-for-someone-else-than-the-receiver", head)),
         Ok(()) => Some(format!("{} => ok {}", head, w.marginfi_account(&acct_key).account_flags)),
         Err(ExecErr::Custom(code)) if code >= 6000 => Some(format!("{} => err {}", head, code)),
+        Err(ExecErr::Panic) => Some(format!("{} => panic", head)),
+        Err(_) => None,
+    }
+}
+
+/// `wd.startdelev` / `wd.enddelev`: the REAL start_deleverage inside REAL transactions (the bracket rule with the deleverage
+/// pair; liquidation starts / ends and other instructions mixed in) and the REAL end_deleverage on an account in receivership
+/// with a snapshot around the current valuation; signed by the risk admin, the group admin, a stranger; the account's own
+/// record or another one; an account of this group or of another one; healthy or not (a deleverage needs no unhealthy account).
+///   `wd.startdelev <context, signer = the risk_admin passed> recordOk n code_1 … code_n cur`  (codes: 0/1 start/end_liquidation,
+///      5/6 start/end_deleverage, 4 another marginfi instruction)  `=> ok <flags> <receiver> <cache x4>`
+///   `wd.enddelev <context> recordOk recReceiver aMaint lMaint aEq lEq`  `=> ok <flags>`
+fn delev_case(s: &Scen, rng: &mut Rng, stranger: Pubkey, risk_admin: Pubkey) -> Option<String> {
+    let u = rng.below(s.users.len() as u64) as usize;
+    let v = (u + 1) % s.users.len();
+    let mut w = s.w.clone();
+    let acct_key = s.users[u].acct;
+    let h = s.banks[0];
+    if rng.chance(1, 3) {
+        let mut a = w.marginfi_account(&acct_key);
+        let pm = *rng.pick(&[0i128, 1, 100, 500]);
+        for bal in a.lending_account.balances.iter_mut().filter(|x| x.is_active()) {
+            let sh = bits(bal.asset_shares);
+            if sh > 0 { bal.asset_shares = I80F48::from_bits(sh / 1000 * pm).into(); }
+        }
+        w.set_marginfi_account(&acct_key, &a);
+    }
+    let rec_key = w.add_liquidation_record(acct_key, Pubkey::default());
+    let other_rec = w.add_liquidation_record(s.users[v].acct, Pubkey::default());
+    if rng.chance(1, 5) {
+        let mut a = w.marginfi_account(&acct_key);
+        a.account_flags |= *rng.pick(&[ACCOUNT_DISABLED, ACCOUNT_IN_FLASHLOAN, ACCOUNT_IN_RECEIVERSHIP, ACCOUNT_FROZEN]);
+        w.set_marginfi_account(&acct_key, &a);
+    }
+    if rng.chance(1, 10) {
+        let mut a = w.marginfi_account(&acct_key);
+        a.group = w.new_key();
+        w.set_marginfi_account(&acct_key, &a);
+    }
+    let signer = if rng.chance(3, 4) { risk_admin } else { *rng.pick(&[stranger, s.admin, s.users[u].wallet]) };
+    let risk = w.remaining_in_slot_order(&acct_key);
+    if rng.chance(1, 2) {
+        let record_ok = rng.chance(7, 8);
+        let mut start = ix::start_deleverage(s.group, acct_key, signer, risk.clone());
+        if !record_ok { start.accounts[1].pubkey = other_rec; }
+        let end = ix::end_deleverage(s.group, acct_key, signer, risk.clone());
+        let filler = ix::accrue(&h);
+        let liq_start = ix::start_liquidation(acct_key, signer, risk.clone());
+        let fee_wallet = w.fee_state(&crate::world::fixtures::fee_state_pda().0).global_fee_wallet;
+        let liq_end = ix::end_liquidation(acct_key, signer, fee_wallet, risk.clone());
+        let (ixs, codes, cur): (Vec<solana_sdk::instruction::Instruction>, Vec<i128>, usize) = match rng.below(12) {
+            0 => (vec![start.clone()], vec![5], 0),
+            1 => (vec![filler.clone(), start.clone(), end.clone()], vec![4, 5, 6], 1),
+            2 => (vec![start.clone(), start.clone(), end.clone()], vec![5, 5, 6], 0),
+            3 => (vec![start.clone(), filler.clone(), end.clone()], vec![5, 4, 6], 0),
+            4 => (vec![start.clone(), end.clone(), filler.clone()], vec![5, 6, 4], 0),
+            5 => (vec![start.clone(), liq_end.clone()], vec![5, 1], 0),
+            6 => (vec![start.clone(), liq_start.clone(), end.clone()], vec![5, 0, 6], 0),
+            7 => (vec![start.clone(), liq_end.clone(), end.clone()], vec![5, 1, 6], 0),
+            _ => (vec![start.clone(), end.clone()], vec![5, 6], 0),
+        };
+        let a0 = w.marginfi_account(&acct_key);
+        let (head, mut keys) = context_line(s, &w, "wd.startdelev", &acct_key, &h, signer, h.liquidity_vault, 0, false);
+        let mut toks: Vec<String> = head.split(' ').map(|x| x.to_string()).collect();
+        toks.truncate(toks.len() - 2);
+        toks[127] = "0".to_string();
+        toks.push(format!("{} {}", record_ok as u8, codes.len()));
+        toks.push(codes.iter().map(|c| c.to_string()).collect::<Vec<_>>().join(" "));
+        toks.push(cur.to_string());
+        let head = toks.join(" ");
+        return match w.exec_tx(&ixs) {
+            Err((i, _)) if i < cur => None,
+            Err((i, ExecErr::Custom(code))) if i == cur && code >= 2000 => Some(format!("{} => err {}", head, code)),
+            Err((i, ExecErr::Panic)) if i == cur => Some(format!("{} => panic", head)),
+            // (from the property text, whatever the table says: only the risk admin may take an account over this way, through ITS record)
+            Err((i, _)) if i > cur && signer != risk_admin => Some(format!("{} => ok accepted-for-someone-else-than-the-risk-admin", head)),
+            Err((i, _)) if i > cur && !record_ok => Some(format!("{} => ok accepted-with-foreign-record", head)),
+            Err(_) => None,
+            Ok(()) if signer != risk_admin => Some(format!("{} => ok accepted-for-someone-else-than-the-risk-admin", head)),
+            Ok(()) if !record_ok => Some(format!("{} => ok accepted-with-foreign-record", head)),
+            Ok(()) => {
+                // (committed: the end has cleared the markers again; the snapshot stays in the record)
+                let rec = w.liquidation_record(&rec_key);
+                Some(format!(
+                    "{} => ok {} {} {} {} {} {}",
+                    head, a0.account_flags | ACCOUNT_IN_RECEIVERSHIP | ACCOUNT_IN_DELEVERAGE, keys.any(&signer),
+                    bits(rec.cache.asset_value_maint), bits(rec.cache.liability_value_maint), bits(rec.cache.asset_value_equity), bits(rec.cache.liability_value_equity)
+                ))
+            }
+        };
+    }
+    // ---- the end
+    let mut probe = w.clone();
+    if probe.exec(&ix::pulse_health(acct_key, risk.clone())).is_err() { return None; }
+    let hc = probe.marginfi_account(&acct_key).health_cache;
+    let (am, lm, ae, le) = (bits(hc.asset_value_maint), bits(hc.liability_value_maint), bits(hc.asset_value_equity), bits(hc.liability_value_equity));
+    let jit = |rng: &mut Rng, x: i128| -> i128 { match rng.below(5) { 0 => x, 1 => x + 1, 2 => (x - 1).max(0), 3 => x + (rng.below(ONE as u64) as i128), _ => (x - (rng.below(ONE as u64) as i128)).max(0) } };
+    let (pam, plm) = (jit(rng, am), jit(rng, lm));
+    let (pae, ple) = (jit(rng, ae), jit(rng, le));
+    let named = if rng.chance(7, 8) { risk_admin } else { *rng.pick(&[stranger, Pubkey::default()]) };
+    let mut rec = w.liquidation_record(&rec_key);
+    rec.liquidation_receiver = named;
+    rec.cache.asset_value_maint = I80F48::from_bits(pam).into();
+    rec.cache.liability_value_maint = I80F48::from_bits(plm).into();
+    rec.cache.asset_value_equity = I80F48::from_bits(pae).into();
+    rec.cache.liability_value_equity = I80F48::from_bits(ple).into();
+    w.set_liquidation_record(&rec_key, &rec);
+    {
+        let mut a = w.marginfi_account(&acct_key);
+        if rng.chance(9, 10) { a.account_flags |= ACCOUNT_IN_RECEIVERSHIP; }
+        if rng.chance(4, 5) { a.account_flags |= ACCOUNT_IN_DELEVERAGE; }
+        w.set_marginfi_account(&acct_key, &a);
+    }
+    let record_ok = rng.chance(7, 8);
+    let mut end = ix::end_deleverage(s.group, acct_key, signer, risk.clone());
+    if !record_ok {
+        let mut r2 = w.liquidation_record(&other_rec);
+        r2.liquidation_receiver = named;
+        w.set_liquidation_record(&other_rec, &r2);
+        end.accounts[1].pubkey = other_rec;
+    }
+    let (head, mut keys) = context_line(s, &w, "wd.enddelev", &acct_key, &h, signer, h.liquidity_vault, 0, false);
+    let mut toks: Vec<String> = head.split(' ').map(|x| x.to_string()).collect();
+    toks.truncate(toks.len() - 2);
+    toks[127] = "0".to_string();
+    toks.push(format!("{} {} {} {} {} {}", record_ok as u8, keys.any(&named), pam, plm, pae, ple));
+    let head = toks.join(" ");
+    match w.exec(&end) {
+        Ok(()) if signer != risk_admin || named != risk_admin => Some(format!("{} => ok accepted-for-someone-else-than-the-risk-admin", head)),
+        Ok(()) if !record_ok => Some(format!("{} => ok accepted-with-foreign-record", head)),
+        Ok(()) => Some(format!("{} => ok {}", head, w.marginfi_account(&acct_key).account_flags)),
+        Err(ExecErr::Custom(code)) if code >= 2000 => Some(format!("{} => err {}", head, code)),
         Err(ExecErr::Panic) => Some(format!("{} => panic", head)),
         Err(_) => None,
     }
